@@ -30,10 +30,27 @@ type WOp struct {
 	Filter int `json:"filter,omitempty"`
 	FArg   int `json:"farg,omitempty"`
 	N      int `json:"n,omitempty"`
+	// Same (upd/upsert): the old argument is the very value passed as the new one (key Key2, the
+	// new version), not a bare lookup key: Update(x, x). The stored item under that key still
+	// carries an older version, so the call has to replace it.
+	Same bool `json:"same,omitempty"`
+	// Spin > 0 (scans of the concurrent wide part): the filter burns that many loop iterations
+	// per visited item, so that the scan holds its lock for a long time.
+	Spin int `json:"spin,omitempty"`
+}
+
+// oldKey is the key of the old argument of upd/upsert.
+func (op WOp) oldKey() int {
+	if op.Same {
+		return op.Key2
+	}
+	return op.Key
 }
 
 type CaseW struct {
 	Ops []WOp `json:"ops"`
+	// Slice: the history stores SItem (slice field, not comparable with ==) instead of Item.
+	Slice bool `json:"slice,omitempty"`
 }
 
 const (
@@ -102,6 +119,7 @@ func maxOps() int {
 // applyWrite applies a writing WOp to the model and returns the value the
 // statement prescribes for the call (ins has none).
 func applyWrite(m *Model, op WOp, ver int) (ret bool) {
+	op.Key = op.oldKey()
 	switch op.Kind {
 	case "ins":
 		m.Put(Item{op.Key, ver})
@@ -143,6 +161,8 @@ func genWOp(t *rapid.T, m *Model, d keyDomain, delWeight int, ver int) WOp {
 		switch nk := rapid.IntRange(0, 9).Draw(t, "newkind"); {
 		case nk < 2:
 			op.Key2 = op.Key
+			// half of them pass one and the same value as old and as new
+			op.Same = rapid.Bool().Draw(t, "samevalue")
 		case nk < 6 && m.Len() > 0:
 			op.Key2 = presentKey(t, m, "newpresent") // onto an existing (mostly other) key
 		default:
@@ -207,12 +227,17 @@ func GenWrapper(t *rapid.T) CaseW {
 		return op
 	})
 	c.Ops = append(pre, ops...)
+	c.Slice = rapid.IntRange(0, 7).Draw(t, "slicetyped") == 0
 	return c
 }
 
 // wrapperContent compares the whole content of the wrapper with the model:
 // Len, a full ascending and a full descending scan.
 func wrapperContent(res *vkit.Result, tr *tree.BTree, m *Model, site, ctx string) bool {
+	return wrapperContentOf(plainCodec, res, tr, m, site, ctx)
+}
+
+func wrapperContentOf(cd itemCodec, res *vkit.Result, tr *tree.BTree, m *Model, site, ctx string) bool {
 	inner := tr.VerifInner()
 	if inner.Len() != m.Len() {
 		res.Failf(site+"/len", "%s: Len() = %d, the sorted set has %d items %s", ctx, inner.Len(), m.Len(), fmtItems(m.it))
@@ -220,12 +245,12 @@ func wrapperContent(res *vkit.Result, tr *tree.BTree, m *Model, site, ctx string
 	}
 	n := m.Len() + 1
 	all := func(tree.Node) bool { return true }
-	got, ok := asItems(tr.AscendGte(nil, all, n))
+	got, ok := cd.items(tr.AscendGte(nil, all, n))
 	if !ok || !sameItems(got, m.it) {
 		res.Failf(site+"/content", "%s: full ascending scan = %s, the sorted set is %s", ctx, fmtItems(got), fmtItems(m.it))
 		return false
 	}
-	got, ok = asItems(tr.DescendLte(nil, all, n))
+	got, ok = cd.items(tr.DescendLte(nil, all, n))
 	if !ok || !sameItems(got, reversed(m.it)) {
 		res.Failf(site+"/content", "%s: full descending scan = %s, the sorted set reversed is %s", ctx, fmtItems(got), fmtItems(reversed(m.it)))
 		return false
@@ -234,12 +259,16 @@ func wrapperContent(res *vkit.Result, tr *tree.BTree, m *Model, site, ctx string
 }
 
 func wrapperGet(res *vkit.Result, tr *tree.BTree, m *Model, k int, site, ctx string) bool {
-	got := tr.Get(Item{K: k})
+	return wrapperGetOf(plainCodec, res, tr, m, k, site, ctx)
+}
+
+func wrapperGetOf(cd itemCodec, res *vkit.Result, tr *tree.BTree, m *Model, k int, site, ctx string) bool {
+	got := tr.Get(cd.key(k))
 	exp, had := m.Get(k)
 	var gi Item
 	gok := false
 	if got != nil {
-		gi, gok = asItem(got)
+		gi, gok = cd.un(got)
 		if !gok {
 			res.Failf(site, "%s: Get(%d) returned a foreign value %v", ctx, k, got)
 			return false
@@ -253,31 +282,31 @@ func wrapperGet(res *vkit.Result, tr *tree.BTree, m *Model, k int, site, ctx str
 }
 
 // runWrapperScan calls one of the four scans and compares with the statement.
-func runWrapperScan(res *vkit.Result, tr *tree.BTree, m *Model, op WOp, ctx string) (inside bool, ok bool) {
-	return runWrapperScanAt(res, tr, m, op, "wrapper.", ctx)
+func runWrapperScanAt(res *vkit.Result, tr *tree.BTree, m *Model, op WOp, sitePrefix, ctx string) (inside bool, ok bool) {
+	return runWrapperScanOf(plainCodec, res, tr, m, op, sitePrefix, ctx)
 }
 
-func runWrapperScanAt(res *vkit.Result, tr *tree.BTree, m *Model, op WOp, sitePrefix, ctx string) (inside bool, ok bool) {
+func runWrapperScanOf(cd itemCodec, res *vkit.Result, tr *tree.BTree, m *Model, op WOp, sitePrefix, ctx string) (inside bool, ok bool) {
 	asc, incl, _ := isScan(op.Kind)
 	f := filterFn(op.Filter, op.FArg)
 	pivot := keyPtr(op.NilPivot, op.Key)
 	wf := func(n tree.Node) bool {
-		x, isItem := n.(Item)
+		x, isItem := cd.un(n)
 		return isItem && f(x)
 	}
 	var raw []tree.Node
 	switch op.Kind {
 	case "agte":
-		raw = tr.AscendGte(pivotOf(pivot), wf, op.N)
+		raw = tr.AscendGte(cd.pivot(pivot), wf, op.N)
 	case "agt":
-		raw = tr.AscendGt(pivotOf(pivot), wf, op.N)
+		raw = tr.AscendGt(cd.pivot(pivot), wf, op.N)
 	case "dlte":
-		raw = tr.DescendLte(pivotOf(pivot), wf, op.N)
+		raw = tr.DescendLte(cd.pivot(pivot), wf, op.N)
 	case "dlt":
-		raw = tr.DescendLt(pivotOf(pivot), wf, op.N)
+		raw = tr.DescendLt(cd.pivot(pivot), wf, op.N)
 	}
 	exp := expectScan(m, asc, incl, pivot, f, op.N)
-	got, isItems := asItems(raw)
+	got, isItems := cd.items(raw)
 	site := sitePrefix + scanName(op.Kind)
 	if !isItems || !sameItems(got, exp) {
 		res.Failf(site, "%s: %s(pivot=%s, filter=%s(%d), n=%d) = %s, want the first %d matching items in scan order: %s; sorted set %s",
@@ -333,29 +362,49 @@ func ExecWrapper(c CaseW) *vkit.Result {
 	m := &Model{}
 	st := &shapeTracker{}
 	scanInside := false
+	cd := plainCodec
+	if c.Slice {
+		cd = sliceCodec
+		res.Class("slice-typed-items")
+	}
 	for i, op := range c.Ops {
 		ver := i + 1
 		ctx := fmt.Sprintf("op %d %+v", i, op)
+		noteOp(ctx)
+		if op.Same && op.Kind != "upd" && op.Kind != "upsert" {
+			op.Same = false
+		}
+		if op.Same {
+			op.Key = op.Key2
+		}
 		_, _, scan := isScan(op.Kind)
 		switch {
 		case op.Kind == "ins":
 			if _, had := m.Get(op.Key); had {
 				res.Class("insert-replaces")
 			}
-			tr.Insert(Item{op.Key, ver})
+			tr.Insert(cd.mk(op.Key, ver))
 			applyWrite(m, op, ver)
 		case op.Kind == "upd" || op.Kind == "upsert" || op.Kind == "del":
 			_, oldHad := m.Get(op.Key)
 			_, newHad := m.Get(op.Key2)
 			var got bool
+			newV := cd.mk(op.Key2, ver)
+			oldV := cd.key(op.Key)
+			if op.Same {
+				oldV = newV
+				if stored, had := m.Get(op.Key); had && stored.V != ver {
+					res.Class("update-with-old-and-new-the-same-value-onto-another-version")
+				}
+			}
 			st.aroundDelete(inner, func() {
 				switch op.Kind {
 				case "upd":
-					got = tr.Update(Item{K: op.Key}, Item{op.Key2, ver})
+					got = tr.Update(oldV, newV)
 				case "upsert":
-					got = tr.UpdateOrInsert(Item{K: op.Key}, Item{op.Key2, ver})
+					got = tr.UpdateOrInsert(oldV, newV)
 				default:
-					got = tr.Delete(Item{K: op.Key})
+					got = tr.Delete(oldV)
 				}
 			})
 			exp := applyWrite(m, op, ver)
@@ -382,7 +431,7 @@ func ExecWrapper(c CaseW) *vkit.Result {
 				res.Class("delete-absent")
 			}
 		case op.Kind == "get":
-			if !wrapperGet(res, tr, m, op.Key, "wrapper.Get", ctx) {
+			if !wrapperGetOf(cd, res, tr, m, op.Key, "wrapper.Get", ctx) {
 				return res
 			}
 		case scan:
@@ -390,7 +439,7 @@ func ExecWrapper(c CaseW) *vkit.Result {
 				res.Skip("scan-with-negative-n-or-unknown-filter")
 				continue
 			}
-			inside, ok := runWrapperScan(res, tr, m, op, ctx)
+			inside, ok := runWrapperScanOf(cd, res, tr, m, op, "wrapper.", ctx)
 			if !ok {
 				return res
 			}
@@ -404,12 +453,12 @@ func ExecWrapper(c CaseW) *vkit.Result {
 			if err := inner.VerifCheck(); err != nil {
 				return res.Failf(name+"/balance", "%s: structural invariant broken: %v (sorted set %s)", ctx, err, fmtItems(m.it))
 			}
-			if !wrapperGet(res, tr, m, op.Key, name+"/get-after", ctx) || !wrapperGet(res, tr, m, op.Key2, name+"/get-after", ctx) {
+			if !wrapperGetOf(cd, res, tr, m, op.Key, name+"/get-after", ctx) || !wrapperGetOf(cd, res, tr, m, op.Key2, name+"/get-after", ctx) {
 				return res
 			}
 		}
 		// reads must not change anything either: the content is compared after every op
-		if !wrapperContent(res, tr, m, name, ctx) {
+		if !wrapperContentOf(cd, res, tr, m, name, ctx) {
 			return res
 		}
 		st.noteHeight(inner)
@@ -445,7 +494,7 @@ var _ btree.Item = Item{} // the wrapper stores btree.Items
 
 var PartWrapper = &vkit.Part[CaseW]{
 	Property: Property, Name: "wrapper",
-	Rule:  "rapid: tree.BTree (degree 2) histories = 0-36 growth inserts (ascending or descending run with gaps, or random) + 1-60 ops (thorough 200; rapid slices over a drawn minimum length, so single ops can be shrunk away) drawn by folding the sorted-set model: Insert, Update(old,new), UpdateOrInsert, Delete (weight 1/3/8/14 so trees also shrink), Get, AscendGte/AscendGt/DescendLte/DescendLt with pivot in {present, absent inside, below min, above max, nil, random}, filter in {all, none, even keys, odd versions, version>=x}, n in {0,1,2,3,len/2,len-1,len,len+3}; keys dense 0..40, sparse wide (incl. MinInt/MaxInt) or mixed; items are (key, version=op index). After every op: return value, Get of the touched keys, Len, full ascending and descending scan equal the model, VerifCheck after every write. Non-trivial: height >= 2 was reached and a delete merged nodes or stole from a sibling, or a scan pivot lay strictly inside the key range; distinct = distinct case JSON",
+	Rule:  "rapid: tree.BTree (degree 2) histories = 0-36 growth inserts (ascending or descending run with gaps, or random) + 1-60 ops (thorough 200; rapid slices over a drawn minimum length, so single ops can be shrunk away) drawn by folding the sorted-set model: Insert, Update(old,new), UpdateOrInsert, Delete (weight 1/3/8/14 so trees also shrink), Get, AscendGte/AscendGt/DescendLte/DescendLt with pivot in {present, absent inside, below min, above max, nil, random}, filter in {all, none, even keys, odd versions, version>=x}, n in {0,1,2,3,len/2,len-1,len,len+3}; keys dense 0..40, sparse wide (incl. MinInt/MaxInt) or mixed; items are (key, version=op index). A fifth of the Update/UpdateOrInsert calls keep the key, half of those pass one and the same value as old and as new (Update(x, x)) while the stored item carries an older version; one history in eight stores SItem (slice field, == panics) instead of Item through every entry point. After every op: return value, Get of the touched keys, Len, full ascending and descending scan equal the model, VerifCheck after every write. The history runs on a goroutine of its own: if it is parked inside the library and nobody is left who could wake it (goroutine-state cut, a timer only decides when to look) the case is reported at wrapper.blocks. Non-trivial: height >= 2 was reached and a delete merged nodes or stole from a sibling, or a scan pivot lay strictly inside the key range; distinct = distinct case JSON",
 	Quick: 8000, Thorough: 13000,
-	Gen: GenWrapper, Exec: ExecWrapper,
+	Gen: GenWrapper, Exec: guarded("wrapper.", ExecWrapper),
 }
